@@ -2,11 +2,14 @@
    Statements only.  Model: Model/Redb.v (persistence/redb/mod.rs, the queueing in persistence/mod.rs and worterbuch.rs).
    redb's own guarantee -- a committed write transaction is atomic and durable -- is trusted.
    The table follows the store request by request (C18_table_tracks_store: set / cset / delete / pdelete histories,
-   any keys, accepted or refused).  PARTIAL: registrations, session ends, imports and load are in the executable model
-   and compared with the real server, not proved; CAS versions are known finding F13 (row_of). *)
+   any keys, accepted or refused; C18_table_tracks_any (Proofs/RedbSession.v): histories of client requests of every
+   kind except import, sessions starting and ending with their grave goods and last wills included).  PARTIAL: the
+   registration tables, imports and the load are in the executable model and compared with the real server, not
+   proved; CAS versions are known finding F13 (row_of). *)
 From Coq Require Import List.
 Import ListNotations.
-From WB Require Import Base.Str Base.Json Model.Key Model.Store Model.Entry Model.Core Model.Persist Model.Redb Proofs.RedbFacts Proofs.CoreFacts Proofs.RedbTrack.
+From WB Require Import Base.Str Base.Json Model.Key Model.Consts Model.Store Model.Entry Model.Core Model.Persist Model.Redb Spec.MapSpec
+  Proofs.RedbFacts Proofs.CoreFacts Proofs.LenFacts Proofs.StreamProof Proofs.RedbTrack Proofs.RedbSession.
 
 (* every cut the writer can produce: whatever the scheduler lets each wake-up find in the channel, the disk holds the
    result of a prefix of the queued single-key changes, in order; the rest is still queued, in order *)
@@ -37,6 +40,43 @@ Print Assumptions C18_table_tracks_store.
 Theorem C18_tracks_init : tracks init t_empty.
 Proof. exact tracks_init. Qed.
 Print Assumptions C18_tracks_init.
+
+(* the same over histories of requests of every kind except import: sessions start and end (the burial of the grave
+   goods and the last will queue a delete resp. an update for every user key they change), subscriptions, locks,
+   publishes in between; [redb_op]: client writes come from clients (not the internal id) with force = false *)
+Theorem C18_table_tracks_any :
+  forall os s t, Inv s -> LenInv s -> tracks s t -> abs s [s_SYS] = None -> Forall redb_op os -> no_crash_run s os ->
+    Inv (final s os) /\ tracks (final s os) (apply_all t (any_actions s os)).
+Proof. exact table_tracks_any. Qed.
+Print Assumptions C18_table_tracks_any.
+
+Theorem C18_table_tracks_any_from_start :
+  forall os, Forall redb_op os -> no_crash_run init os ->
+    tracks (final init os) (apply_all t_empty (any_actions init os)).
+Proof. exact table_tracks_any_init. Qed.
+Print Assumptions C18_table_tracks_any_from_start.
+
+(* one session end: the state afterwards keeps, loses or overwrites with a plain value every entry (nothing else), and
+   the queued actions bring the rows along *)
+Theorem C18_session_end_tracks :
+  forall s t c, Inv s -> LenInv s -> tracks s t -> abs s [s_SYS] = None ->
+    o_res (snd (step s (ODisconnected c))) = RUnit ->
+    let s' := fst (step s (ODisconnected c)) in
+    Inv s' /\ tracks s' (apply_all t (actions_of s (ODisconnected c))) /\ abs s' [s_SYS] = None.
+Proof. exact track_session_end. Qed.
+Print Assumptions C18_session_end_tracks.
+
+Example C18_sessions_nonvacuous :
+  let gg1 := topic [s_SYS; s_clients; client_str 1; s_graveGoods] in
+  let lw1 := topic [s_SYS; s_clients; client_str 1; s_lastWill] in
+  let os := [OConnected 1; OSet 1 gg1 (JArr [JStr [103;47;35]]) false; OSet 1 lw1 (JArr [JArr [JStr [119]; JNum [49]]]) false;
+             OSet 2 [103;47;120] JNull false; OCSet 2 [119] JNull 0 false; OSet 2 [107] JNull false; ODisconnected 1] in
+  Forall redb_op os /\ no_crash_run init os /\
+  t_v2 (apply_all t_empty (any_actions init os)) = [([119], Plain (JNum [49])); ([107], Plain JNull)].
+Proof.
+  cbv zeta. split; [repeat (apply Forall_cons; [cbn; first [exact I|split; [reflexivity|discriminate]]|]); apply Forall_nil|].
+  split; [vm_compute; repeat split; discriminate|vm_compute; reflexivity].
+Qed.
 
 (* known finding F13 *)
 Theorem C18_version_refuted :
